@@ -314,6 +314,9 @@ def extract_fn(relpath, qual, ann):
         p = s0 + body.find(ob)
         ed.add(p, p + len(ob), new.strip(), rule, "catalogue desugaring: " + old.strip()[:60].replace("\n", " "))
     text, segs = ed.render()
+    if re.match(r"\s*pub\(crate\)", text):
+        text = text.replace("pub(crate)", "pub", 1)
+        ed.log.append({"file": relpath, "line": _srcline(src, s0), "rule": "R11", "note": "pub(crate) -> pub (visibility only)"})
     for m in set(re.findall(r"impl Into<(Uint256|Uint128|Uint512|u128)>(?!\s*\+)", text)):
         text = re.sub(r"impl Into<%s>(?!\s*\+)" % m, "impl Into<%s> + ToNat" % m, text)
         ed.log.append({"file": relpath, "line": _srcline(src, s0), "rule": "R9",
@@ -473,13 +476,17 @@ def extract_const(relpath, name, opts):
         phantom = "" if m.group(1) in ("Admin", "Hooks") else ", _p: core::marker::PhantomData"
         ed.add(xs, xe, f"{m.group(1)} {{ ns: {nsid}{phantom} }} /* ns={ns} */", "R5",
                f"{name} namespace {ns} -> id {nsid}")
-    if it["ty"].replace(" ", "") == "&str":
-        ts, te = it["ty_span"]
-        ed.add(ts, te, "&'static str", "R10", "const of type &str spelled &'static str (what rustc elides to)")
+    ts, te = it["ty_span"]
+    tytext = src[ts:te].decode()
+    if re.search(r"&(?!')", tytext):
+        ed.add(ts, te, re.sub(r"&(?!')\s*", "&'static ", tytext), "R10", "elided lifetime in a const type spelled 'static (what rustc elides to)")
     if opts.get("expr"):
         xs, xe = it["expr"]
         ed.add(xs, xe, opts["expr"], opts.get("rule", "R5"), "const initialiser replaced: " + opts["expr"])
     text, segs = ed.render()
+    if "pub(crate)" in text.split("=")[0]:
+        text = text.replace("pub(crate)", "pub", 1)
+        ed.log.append({"file": relpath, "line": _srcline(src, s0), "rule": "R11", "note": "pub(crate) -> pub (visibility only)"})
     return text + "\n", segs, src, ed.log, it
 
 
